@@ -181,27 +181,65 @@ def wrappers(repo, chk):
 
 
 def custody(repo, chk):
+    """compute_batch_ranking evaluated as one path with every construction step switched on: the frame that reaches the ranking must be the nested
+    application of the steps - each step receives, as its frame, what the previous step returned (so no column constructed earlier is lost),
+    starting from the frame built from the batch - and no step's result is discarded."""
+    from ..match import PathEval
+    from ..terms import walk_term
     fn = repo.func(CR, 'compute_batch_ranking')
     m = fn.module
     steps = ['enrich_with_transformations', 'compute_expanded_multivalue_features', 'compute_subfeatures', 'compute_combined_features', 'include_noisy_features']
-    frame = 'input_dataframe'
-    found = 0
-    for n in own_nodes(fn.node):
-        if isinstance(n, ast.Assign) and isinstance(n.value, ast.Call):
-            d = m.dotted(n.value.func) or ''
-            if d.startswith(CR + '.') and d.split('.')[-1] in steps:
-                found += 1
-                ok = isinstance(n.targets[0], ast.Name) and n.targets[0].id == frame and n.value.args and ast.unparse(n.value.args[0]) == frame
-                chk.expect(ok, 'C11.1c', 'R11', fn.site(n), ast.unparse(n).replace('\n', ' ')[:120], 'the step receives the frame and its result becomes the frame', 'each construction step must take the current frame and its result must become the current frame')
-    for n in own_nodes(fn.node):
-        if isinstance(n, ast.Expr) and isinstance(n.value, ast.Call):
-            d = m.dotted(n.value.func) or ''
-            if d.startswith(CR + '.') and d.split('.')[-1] in steps:
-                chk.bad('C11.1c', 'R11', fn.site(n), ast.unparse(n).replace('\n', ' ')[:120], 'the result of a construction step is discarded: its new columns never reach the ranked frame')
-    chk.require_count('construction steps threaded through compute_batch_ranking', found, 5)
-    # the scored frame is that frame
+    step_libs = {('lib', f'{CR}.{s_}'): s_ for s_ in steps}
+
+    def other(t, pe):
+        txt = ast.unparse(t)
+        if 'feature_set_focus' in txt or 'task' in txt:
+            return False
+        return True
+    pe = PathEval(fn, None, None, other)
+    pe.eval_closures = True
+    res = pe.run()
+    if res.unknown is not None or res.returned is None:
+        chk.unsure('C11.1c', 'R11', fn.site(res.unknown) if res.unknown is not None else fn.site(), 'compute_batch_ranking', 'the path on which every construction step is enabled could not be evaluated')
+        return
+    rt = term_of(fn, res.returned, inline=False)
+    # the frame handed to the ranking: first argument of mixed_rank_graph
+    ranked = next((x[2][0] for x in walk_term(rt) if isinstance(x, tuple) and len(x) == 4 and x[0] == 'call' and x[1] == ('lib', f'{CR}.mixed_rank_graph') and x[2]), None)
+    if ranked is None:
+        chk.unsure('C11.1c', 'R11', fn.site(), show(rt)[:120], 'the frame handed to mixed_rank_graph was not found in the returned value')
+        return
+    # walk the nest from the outside in
+    chain = []
+    cur = ranked
+    while isinstance(cur, tuple) and len(cur) == 4 and cur[0] == 'call' and cur[1] in step_libs and cur[2]:
+        chain.append(step_libs[cur[1]])
+        cur = cur[2][0]
+    all_step_calls = [step_libs[x[1]] for x in walk_term(ranked) if isinstance(x, tuple) and len(x) == 4 and x[0] == 'call' and x[1] in step_libs]
+    shown = ' <- '.join(chain) or show(ranked)[:100]
+    base_ok = any(x == ('lib', 'pandas.DataFrame') for x in walk_term(cur)) and not any(isinstance(x, tuple) and len(x) == 4 and x[0] == 'call' and x[1] in step_libs for x in walk_term(cur))
+    discarded = [c for c in res.calls if (m.dotted(c['call'].func) or '').startswith(CR + '.') and (m.dotted(c['call'].func) or '').split('.')[-1] in steps]
+    for c in discarded:
+        chk.bad('C11.1c', 'R11', fn.site(c['node']), ast.unparse(c['node']).replace('\n', ' ')[:120], 'the result of a construction step is discarded: its new columns never reach the ranked frame')
+    if len(all_step_calls) > len(chain):
+        lost = [s_ for s_ in all_step_calls if s_ not in chain] or all_step_calls[len(chain):]
+        chk.bad('C11.1c', 'R11', fn.site(), shown, f'the construction steps are not applied to one another\'s results: `{chain[-1] if chain else "the ranking"}` receives a frame that `{lost[0]}` (and the steps before it) did not go into / `{lost[0]}` is applied to a frame that is not the running one, so columns constructed earlier are lost')
+    elif len(chain) >= 6 and base_ok:
+        chk.ok('C11.1c', 'R11', fn.site(), shown, 'every construction step receives the frame returned by the previous one; the ranked frame is their composition over the batch frame', inspected=len(chain))
+    elif not discarded:
+        # fewer steps than the five constructors (six applications) reach the ranked frame on the all-enabled path
+        missing = [s_ for s_ in steps if s_ not in chain]
+        enabled_tests = sum(1 for _t, v in res.assumed if v)
+        if missing and base_ok:
+            # decided positively when the path did switch the steps on (their enabling tests were taken) and their result is nevertheless absent
+            chk.bad('C11.1c', 'R11', fn.site(), shown, f'with every step enabled ({enabled_tests} enabling tests taken) the ranked frame does not go through {missing}: the columns these steps construct never reach the ranking '
+                    '(a later step is applied to a frame from before them)', soft=enabled_tests < 6)
+        else:
+            chk.unsure('C11.1c', 'R11', fn.site(), shown, 'the frame handed to the ranking is not recognised as the composition of the construction steps over the batch frame')
+    found = len(chain)
+    chk.analysed['construction_steps_in_ranked_frame'] = chain
+    # the scored frame is that frame (C11.1d is part of the composition above: `ranked` is the argument of mixed_rank_graph)
     cs = [c for c in calls(fn) if m.dotted(c.func) == f'{CR}.mixed_rank_graph']
-    chk.expect(len(cs) == 1 and ast.unparse(cs[0].args[0]) == frame, 'C11.1d', 'R11', fn.site(cs[0]) if cs else fn.site(), ast.unparse(cs[0])[:80] if cs else '', 'the ranked frame is the constructed frame', 'mixed_rank_graph must receive the constructed frame')
+    chk.expect(len(cs) == 1, 'C11.1d', 'R11', fn.site(cs[0]) if cs else fn.site(), ast.unparse(cs[0])[:80] if cs else '', 'the ranked frame is the constructed frame', 'mixed_rank_graph must receive the constructed frame (one call)')
 
 
 def _count_appends_paths(fn, loop, lst):
